@@ -92,7 +92,8 @@ def run(tier, replay=None):
     res.coverage.update({"evaluations": len(jobs) + len(real_jobs), "distinct_nontrivial": len({json.dumps([c[0], c[1], k, a]) for (c, k, a) in jobs.values() if len(c[1]) - c[0] + components(c[0], c[1]) >= 1}),
         "rule": "graph x {mcb_sva_signed_tbb, mcb_sva_fvs_trees_tbb, mcb_sva_iso_trees_tbb, approx_*_tbb} x seeded schedules of the stand-in (random partitions/orders/seq-fork trees, plus the fully sequential and the maximally split schedule); real oneTBB with 1,2,4,16 threads; non-trivial = cycle space dimension >= 1; distinct by (graph, entry point, schedule seed)",
         "traces_validated_against_impl": len(oks),
-        "exact_tbb_runs_replayed_literally_under_the_logged_schedules_with_equal_cycles": sum(int(w[10]) for w in oks if len(w) > 10),
+        "exact_tbb_runs_replayed_literally_under_the_logged_schedules_with_equal_cycles": sum(int(w[10]) for w in oks if len(w) > 10 and jobs.get(w[1], (0, "", 0))[1] == "exact"),
+        "approx_tbb_runs_whose_exact_phase_was_replayed_literally_under_the_logged_schedules": sum(int(w[9]) for w in oks if len(w) > 9 and jobs.get(w[1], (0, "", 0))[1] == "approx"),
         "schedule_stats": {"runs": len(shim), "parallel_regions": sum(s[0] for s in shim), "leaves": sum(s[1] for s in shim), "forks": sum(s[2] for s in shim), "seqs": sum(s[3] for s in shim)},
         "real_tbb_runs": len(real_jobs), "tsan": tsan_note,
         "samples": [{"n": c[0], "edges": c[1], "kind": k, "args": a} for (c, k, a) in list(jobs.values())[-2:]], **stats(base)})
